@@ -708,6 +708,8 @@ func spTranslate(pkg *spPkg, mi *msgInfo) (prog []string, failure string) {
 
 func engineSizeProg(cfg config, o *out) {
 	schemas := loadSchemas()
+	cc := newClassCov("sizeprog")
+	defer cc.emit(o)
 	for _, si := range schemas {
 		o.raw("SCHEMA\t" + si.id + "\t=\t" + si.sexp())
 		r := newRng(cfg.seed, "sizeprog/"+si.id)
@@ -734,6 +736,7 @@ func engineSizeProg(cfg config, o *out) {
 			o.kase("@SIZEDEF", append(args, prog), "ok")
 			o.kase("SIZEPROG", append(args, "eqb"), "same")
 			o.count("translated")
+			cc.message(si, mi)
 			o.nontrivial("prog/" + prog)
 			for _, form := range []string{"(=", "(:=", "(+=", "(if", "(for", "(map", "(switch", "(case"} {
 				o.hist["stmt_"+form[1:]] += strings.Count(prog, form+" ")
